@@ -105,6 +105,22 @@ contract(C + "Configuration.update_userdata", props=P, params={"self": "ref:Conf
                  "implies(has_key(self.userdata, x), dict_value(self.userdata, x) == old(dict_value(self.userdata, x)))))" % DEFS,
          })
 
+# -- setup_userdata (end of Configuration.__init__): file user data first, -D definitions on top ---------------------------------
+contract(C + "Configuration.setup_userdata", props=P, params={"self": "ref:Configuration"}, self_classes=["Configuration"],
+         callsites={"UserData": "new:UserData", "isinstance": "abs:isinstance_dyn"}, globals={"UserData": ("sentinel", 35)},
+         requires={"userdata-is-a-dictionary-of-its-own": "self.userdata is not self.userdata_defines",
+                   "defines-are-a-dictionary-or-nothing": "is_none(self.userdata_defines) or has_kind(self.userdata_defines, 'dict')"},
+         modifies=["self.userdata", "dict(self.userdata)"],
+         ensures={
+             "command-line-defines-win-over-file-user-data":
+                 "implies(truthy(self.userdata_defines), forall_val(lambda x: implies(has_key(%s, x), "
+                 "has_key(self.userdata, x) and dict_value(self.userdata, x) == dict_value(%s, x))))" % (DEFS, DEFS),
+             "file-user-data-without-a-define-is-kept-and-nothing-else-appears":
+                 "forall_val(lambda x: implies(not (truthy(self.userdata_defines) and has_key(%s, x)), "
+                 "has_key(self.userdata, x) == old(has_key(self.userdata, x)) and "
+                 "implies(has_key(self.userdata, x), dict_value(self.userdata, x) == old(dict_value(self.userdata, x)))))" % DEFS,
+         })
+
 # -- userdata.getas: a present value is converted or kept, only a missing name yields the default ------------------------
 global_const("Unknown", ("sentinel", 1))
 oracle("ud_has", ["ref", "val"], "bool")           # name in userdata
@@ -247,7 +263,9 @@ contract(C + "read_configparser", props=P, params={"path": "str"}, result="dict"
 prop("C20", level="other", bounded=[],
      explanation="proved: -D definitions are parsed as padding-stripped text, bare name = true, name = stripped text before the "
                  "first '=' of the unquoted definition, value = padding stripped first and then its quote pair (unqote removes "
-                 "exactly one surrounding pair of equal quotes); update_userdata: command-line defines win over new data which "
+                 "exactly one surrounding pair of equal quotes); setup_userdata (end of Configuration.__init__): -D definitions win over file user data, "
+                 "file user data without a define is kept, nothing else appears, whether or not userdata already is a UserData; "
+                 "update_userdata: command-line defines win over new data which "
                  "wins over old user data, everything else kept; make_defaults returns a new dictionary (never the shared class "
                  "level defaults) in which overrides win and everything else keeps its default; relative paths / outfiles of a "
                  "configuration file are resolved against that file's directory, in order, whether or not a format option is "
@@ -260,7 +278,8 @@ prop("C20", level="other", bounded=[],
                  "line, both}), configparser / argparse, the values read_toml_config stores, format/outfiles coupling",
      technique="contract-based deductive verification (own VC generator over the real ASTs, z3/cvc5) of the deciding helper "
                "functions; bounded run-time contract stand-in for the option table",
-     notes=["the converters int, float, parse_bool are callable (assumed in the typed getters; the objects themselves are opaque tokens)",
+     notes=["userdata_defines is modelled as a dictionary (argparse delivers a list of (name, value) pairs; dict.update treats both alike, A-lib)",
+            "the converters int, float, parse_bool are callable (assumed in the typed getters; the objects themselves are opaque tokens)",
             "string primitives (strip, split('=', 1), slicing, startswith/endswith) are uninterpreted functions of their arguments",
             "Configuration.defaults is modelled as one process-wide dictionary object",
             "Configuration.__init__ / load_configuration / read_configuration are not under contract"])
